@@ -1007,6 +1007,9 @@ class AnsiString:
         '''
         if isinstance(value, str):
             value = AnsiString(value)
+        elif isinstance(value, AnsiString):
+            # Work on a copy - merging at the seam rewrites the incoming marker lists
+            value = value.copy()
 
         if isinstance(value, AnsiString):
             incoming_str = value._s
